@@ -147,6 +147,12 @@ def leaf_top(rng, leaf, n_ids, strong_cov=False):
             # truncation far in the upper tail of the untruncated Gaussian:
             # any real mean is in the support
             base[:d] = -base[d:] * rng.uniform(4, 9, d)
+        elif rng.random() < 0.25:
+            # regimes differ between the dimensions: some means lie far
+            # above zero (truncation irrelevant there), others close to it
+            far = rng.random(d) < 0.5
+            base[:d] = np.where(far, base[d:] * rng.uniform(10, 40, d),
+                                base[:d])
     elif k == 'P':
         base = rng.uniform(0.3, 0.8, d)
     else:
